@@ -63,17 +63,26 @@ def shared (s : State) : Map Rec × Tid × List (Tid × List Oid) := (s.committe
 @[simp] theorem invalidateCreating_shared (s : State) (ks) : shared (invalidateCreating s ks) = shared s :=
   foldl_frame shared uncreate uncreate_shared ks s
 
+@[simp] theorem tpcCleanup_shared (s : State) : shared (tpcCleanup s) = shared s := rfl
+@[simp] theorem dropTmp_shared (s : State) : shared (dropTmp s) = shared s := rfl
+@[simp] theorem storageAbort_shared (s : State) : shared (storageAbort s) = shared s := rfl
+@[simp] theorem clearRegistered_shared (s : State) : shared (clearRegistered s) = shared s := rfl
+@[simp] theorem resetTmp_shared (s : State) (t p idx cr) : shared (resetTmp s t p idx cr) = shared s := rfl
+
+@[simp] theorem invalidateOwnCreating_shared (s : State) : shared (invalidateOwnCreating s) = shared s := by
+  unfold invalidateOwnCreating
+  show shared (invalidateCreating _ _) = _
+  simp
+
+@[simp] theorem invalidateModified_shared (s : State) : shared (invalidateModified s) = shared s := by
+  unfold invalidateModified; simp
+
 @[simp] theorem abortSavepoint_shared (s : State) : shared (abortSavepoint s) = shared s := by
   unfold abortSavepoint
-  split
-  · rfl
-  · simp only [invalidateAll_shared]
-    exact invalidateCreating_shared _ _
+  split <;> simp
 
 @[simp] theorem connAbort_shared (s : State) : shared (connAbort s) = shared s := by
-  unfold connAbort tpcCleanup
-  show shared (invalidateCreating _ _) = _
-  rw [invalidateCreating_shared, abortSavepoint_shared, abortObjs_shared]
+  unfold connAbort; simp
 
 @[simp] theorem drainAdded_shared (s : State) : shared (drainAdded s) = shared s := by
   unfold drainAdded
@@ -81,15 +90,8 @@ def shared (s : State) : Map Rec × Tid × List (Tid × List Oid) := (s.committe
   exact foldl_frame shared (fun (s : State) (p : Oid × ObjId) => disown { s with added := s.added.del p.1 } p.2) (fun t k => rfl) _ s
 
 @[simp] theorem connTpcAbort_shared (s : State) : shared (connTpcAbort s) = shared s := by
-  unfold connTpcAbort tpcCleanup
-  split
-  · rfl
-  · show shared (drainAdded _) = _
-    rw [drainAdded_shared]
-    show shared (invalidateCreating _ _) = _
-    rw [invalidateCreating_shared, invalidateAll_shared]
-    show shared (abortSavepoint s) = _
-    exact abortSavepoint_shared s
+  unfold connTpcAbort
+  split <;> simp
 
 @[simp] theorem pollOne_shared (s : State) (p) : shared (pollOne s p) = shared s := by
   unfold pollOne
@@ -212,13 +214,8 @@ def shared (s : State) : Map Rec × Tid × List (Tid × List Oid) := (s.committe
 @[simp] theorem rollbackSavepoint_shared (s : State) (p idx cr) :
     shared (rollbackSavepoint s p idx cr) = shared s := by
   unfold rollbackSavepoint
-  simp only
-  split
-  · exact abortObjs_shared s
-  · simp only [invalidateAll_shared]
-    show shared (invalidateCreating _ _) = _
-    rw [invalidateCreating_shared]
-    exact abortObjs_shared s
+  dsimp only
+  split <;> simp
 
 theorem txnRollback_shared (s : State) (n) : shared (txnRollback s n).1 = shared s := by
   unfold txnRollback
